@@ -76,6 +76,76 @@ def run(ctx):
         p.outcome = 'normal'
     ctx.add_exploration(label, accept_case, res, target=label)
 
+    # ------------------------------------------------------------------ the state accept() starts from
+    # accept() and _loop are verified on "object state as left by the constructors": that state is an obligation
+    # on the constructors (provider and socketserver base replaced by recording stubs): every association gets
+    # its OWN empty routing tables (state shared between associations would route one peer's messages by
+    # another peer's negotiation), is not established, and carries the configured maximum length.
+    def constructor_case(p):
+        from ..values import ClassVal, Builtin
+        lab0 = 'asceprovider.AssociationAcceptor.__init__'
+
+        def ob(name, f):
+            if isinstance(f, bool):
+                f = z3.BoolVal(f)
+            p.oblige('%s#%s' % (lab0, name), f, kind='ensures', assume_after=False)
+        dulm = it.modules['pynetdicom2.dulprovider']
+        made = []
+        stub = ClassVal('DULServiceProviderStub', [it.builtins['object']], {
+            '__init__': nego.method(lambda it2, a, kw: made.append((tuple(a[1:]), dict(kw))))}, 'harness')
+        real = dulm.attrs['DULServiceProvider']
+        dulm.attrs['DULServiceProvider'] = stub
+        base = asc.attrs['AssociationAcceptor'].bases
+        handler_inits = []
+        ext0 = it.hooks.get('external_call')
+
+        def external(it2, fn, args, kwargs):
+            if fn.name.endswith('StreamRequestHandler.__init__'):
+                handler_inits.append(tuple(args))
+                return None
+            return ext0(it2, fn, args, kwargs) if ext0 else Ellipsis
+        it.hooks['external_call'] = external
+        cfg = nego.install_cfg(it)
+        ae = nego.new_ae(it, cfg)
+        ae.fields['store_in_file'] = Opaque('ae.store_in_file')
+        ae.fields['get_file'] = Opaque('ae.get_file')
+        own = p.fresh_int('configured_max')
+        objs = []
+        try:
+            for i in range(2):
+                me = Obj(asc.attrs['AssociationAcceptor'])
+                sock = Opaque('client socket %d' % i)
+                it.call(asc.attrs['AssociationAcceptor'].lookup('__init__')[0], [me, sock, Opaque('address'), ae, own], {})
+                objs.append((me, sock))
+        except Raised as r:
+            ob('noexc', False)
+            p.outcome = 'normal'
+            return
+        finally:
+            dulm.attrs['DULServiceProvider'] = real
+            it.hooks['external_call'] = ext0
+        for i, (me, sock) in enumerate(objs):
+            f = me.fields
+            for tname in ('accepted_contexts', 'sop_classes_as_scp'):
+                t = f.get(tname)
+                ob('empty-%s' % tname.replace('_', '-'), isinstance(t, DictVal) and not t.entries and t.base is None)
+            ob('not-established-not-stopped', f.get('association_established') is False and f.get('is_killed') is False)
+            ob('configured-maximum-length', f.get('max_pdu_length') is own)
+            ob('serves-the-given-entity', f.get('ae') is ae)
+            ok = len(made) == 2 and len(made[i][0]) + len(made[i][1]) >= 3
+            ob('provider-on-the-client-socket', ok and made[i][0][0] is ae.fields['store_in_file'] and
+               made[i][0][1] is ae.fields['get_file'] and made[i][0][2] is sock)
+        a, b = objs[0][0].fields, objs[1][0].fields
+        ob('tables-are-per-association', a.get('accepted_contexts') is not b.get('accepted_contexts') and
+           a.get('sop_classes_as_scp') is not b.get('sop_classes_as_scp') and
+           a.get('accepted_contexts') is not a.get('sop_classes_as_scp'))
+        p.outcome = 'normal'
+    for q in ('asceprovider.Association.__init__', 'asceprovider.AssociationAcceptor.__init__'):
+        fv, _ = verify.lookup_function(it, q)
+        infos.append(verify.function_info(it, fv))
+    ctx.add_exploration('asceprovider.AssociationAcceptor.__init__', constructor_case, res,
+                        target='asceprovider.AssociationAcceptor.__init__')
+
     # ------------------------------------------------------------------ dispatch
     lab2 = 'asceprovider.AssociationAcceptor._loop'
 
@@ -155,8 +225,9 @@ def run(ctx):
     ctx.assumptions += [
         'the request lists its items in standard order: application context, presentation contexts, user '
         'information whose first sub-item is Maximum Length (accept() indexes them positionally)',
-        'object state as left by the constructors (empty routing tables); the constructors themselves (sockets, '
-        'provider thread) are outside the verified subset',
+        'object state as left by the constructors: empty routing tables of the association\'s own, an obligation on '
+        'Association.__init__ / AssociationAcceptor.__init__ (DULServiceProvider and the socketserver base are '
+        'recording stubs there: sockets and the provider thread stay outside the verified subset)',
         'configuration: AE.supported_scp and AE.supported_ts are arbitrary sets, modelled as uninterpreted '
         'membership predicates over names',
         'induction over loop iterations: "each iteration appends exactly one answer for its context and writes '
